@@ -105,8 +105,13 @@ CHECKS = {
            'declared width and element type - proved function by function: _valid_sparse_data, _valid_dense_data, _valid_data, '
            '_valid_rows / _valid_columns, _valid_id, _valid_metadata, _valid_shape, _valid_matrix_type, '
            '_valid_matrix_element_type, _valid_format / _format_url / _type / _generated_by / _nullable_id and the composing '
-           'loop of _validate_json. Assumed: _is_int, _valid_date, str.lower on the two literals, reduce(and_). The HDF5 '
-           'validators, completeness and "accepted => loads" are bounded only.', technique=TECH),
+           'loop of _validate_json. Assumed: _is_int, _valid_date, str.lower on the two literals, reduce(and_). Of the HDF5 '
+           'half the attribute-level validators are under contract (Tier A: an open file is an object whose attrs hold '
+           'JSON-like values): _valid_nnz (a non-negative integer), and second contracts of _valid_shape, _valid_format_url, '
+           '_valid_type, _valid_generated_by for an HDF5 table (they look the attribute up under its hyphenated name), '
+           '_valid_creation_date (hands the attribute to _valid_date once). _validate_hdf5, _valid_hdf5_axis (groups and '
+           'datasets are not modelled), the metadata checks, completeness and "accepted => loads" are bounded only.',
+           technique=TECH),
  'C16': _b('Contract of == / != / descriptive_equality (depends on content only; equivalence relation; accessors do not '
            'change content; equal tables export equally) over equal-content routes x accessor interleavings, and all '
            'single-difference pairs. Deductive part (Tier A, view-level scipy model): __eq__, __ne__, descriptive_equality and '
